@@ -66,6 +66,10 @@ func (pac *PACType) Unmarshal(b []byte) (err error) {
 	if err != nil {
 		return
 	}
+	// Each PAC_INFO_BUFFER takes 16 bytes of the input: do not allocate more entries than the input can hold.
+	if uint64(pac.CBuffers)*16 > uint64(len(b)-8) {
+		return fmt.Errorf("PAC declares %d info buffers but only %d bytes follow the header", pac.CBuffers, len(b)-8)
+	}
 	buf := make([]InfoBuffer, pac.CBuffers, pac.CBuffers)
 	for i := range buf {
 		buf[i].ULType, err = r.Uint32()
@@ -89,6 +93,9 @@ func (pac *PACType) Unmarshal(b []byte) (err error) {
 // https://msdn.microsoft.com/en-us/library/cc237954.aspx
 func (pac *PACType) ProcessPACInfoBuffers(key types.EncryptionKey, l *log.Logger) error {
 	for _, buf := range pac.Buffers {
+		if buf.Offset > uint64(len(pac.Data)) || uint64(buf.CBBufferSize) > uint64(len(pac.Data))-buf.Offset {
+			return fmt.Errorf("PAC info buffer of type %d (offset %d, size %d) is outside the %d bytes of the PAC", buf.ULType, buf.Offset, buf.CBBufferSize, len(pac.Data))
+		}
 		p := make([]byte, buf.CBBufferSize, buf.CBBufferSize)
 		copy(p, pac.Data[int(buf.Offset):int(buf.Offset)+int(buf.CBBufferSize)])
 		switch buf.ULType {
